@@ -47,6 +47,14 @@ def is_param(v, i):
 
 # ----------------------------------------------------------------------------------------
 def check_object_eq(F, rep, rule, heap_types):
+    """`==` and, when the type spells it out itself, `!=` of Object (see _check_eq_fn)"""
+    _check_eq_fn(F, rep, rule, heap_types, '<object::Object as core::cmp::PartialEq>::eq', False)
+    ne = '<object::Object as core::cmp::PartialEq>::ne'
+    if ne in F.fns or ne in F.transparent_fns:
+        _check_eq_fn(F, rep, rule, heap_types, ne, True)
+
+
+def _check_eq_fn(F, rep, rule, heap_types, name, negate):
     """Object equality, read per path: what the path knows about the two tags when it answers, and what it answers.
     An answer is right when
       - `false` is given only where the two tags are known to differ,
@@ -58,8 +66,10 @@ def check_object_eq(F, rep, rule, heap_types):
     into do not matter."""
     from rules.c05 import _tag_atoms
     from rules.unsafe_inv import same
-    name = '<object::Object as core::cmp::PartialEq>::eq'
-    fn = F.fn(name)
+    FALSE, TRUE = (('int', 1, 'bool'), ('int', 0, 'bool')) if negate else (('int', 0, 'bool'), ('int', 1, 'bool'))
+    CMP = 'Ne' if negate else 'Eq'
+    EQN = '<object::Object as core::cmp::PartialEq>::eq'
+    fn = F.transparent_fns.get(name) or F.fn(name)
     ai = AbsInt(F, fn)
     paths = ai.run()
     PAYLOAD = ('object::Object::as_f64', 'object::Object::as_str', 'object::Object::as_vec', 'object::Object::get', 'object::Float::read', 'object::Array::read')
@@ -101,34 +111,42 @@ def check_object_eq(F, rep, rule, heap_types):
         r = p.env.get('_0')
         if differ:
             differ_paths += 1
-            if r != ('int', 0, 'bool') or any(c[1].startswith(PAYLOAD) for c in p.calls):
+            if r != FALSE or any(c[1].startswith(PAYLOAD) for c in p.calls):
                 differ_ok = False
             continue
         # what is answered, and whether the tags established on the path allow that answer
         kind, ok, why = 'other', False, show(r)[:80]
         a = b = None
-        if is_binop(r, 'Eq') and r[4] != 'f64':
+        delegated = False
+        if negate and r and r[0] == 'unop' and r[1] == 'Not':
+            inner = r[2]
+            if inner[0] == 'call' and inner[1] == EQN and len(inner[2]) == 2 and {1, 2} == {i for i in (1, 2) for z in inner[2] if is_param(deref(p.env, z), i)}:
+                delegated = True
+        if is_binop(r, CMP) and r[4] != 'f64':
             a, b = r[2], r[3]
         elif r and r[0] == 'call' and r[1].endswith('ptr::eq') and len(r[2]) == 2:
             a, b = r[2]          # the word is a pointer-sized value: address comparison is word comparison
-        if r == ('int', 0, 'bool'):
-            kind, ok, why = 'false', False, 'answers false although the tags are not known to differ'
-        elif r == ('int', 1, 'bool'):
-            kind, ok, why = 'true', False, 'answers true without comparing anything'
+        if delegated:
+            kind, ok, why = 'delegates', True, 'the negation of eq'
+        elif r == FALSE:
+            kind, ok, why = 'false', False, 'answers `different` although the tags are not known to differ'
+        elif r == TRUE:
+            kind, ok, why = 'true', False, 'answers `equal` without comparing anything'
         elif a is not None and ((is_param_word(a, 1) and is_param_word(b, 2)) or (is_param_word(a, 2) and is_param_word(b, 1))):
             kind = 'word'
             imm = (ALL - set(heap_types)) | {'Array'}
             ok = poss[1] <= imm or poss[2] <= imm
             why = 'words compared where the value may be %s' % sorted((poss[1] & poss[2]) - imm)
-        elif is_binop(r, 'Eq') and r[4] == 'f64':
+        elif is_binop(r, CMP) and r[4] == 'f64':
             kind = 'Float'
             x, y = r[2], r[3]
             ok = x[0] == 'call' and y[0] == 'call' and x[1].startswith('object::Object::as_f64') and y[1].startswith('object::Object::as_f64') \
                 and {1, 2} == {i for i in (1, 2) for z in (x, y) if is_param(deref(p.env, z[2][0]), i)} and poss[1] == poss[2] == {'Float'}
             why = 'float payloads compared where the tags may be %s / %s' % (sorted(poss[1]), sorted(poss[2]))
-        elif r and r[0] == 'call' and 'PartialEq' in r[1]:
+        elif r and ((r[0] == 'call' and 'PartialEq' in r[1] and r[1].endswith('ne') == negate) or (negate and r[0] == 'unop' and r[1] == 'Not' and r[2][0] == 'call' and 'PartialEq' in r[2][1] and r[2][1].endswith('eq'))):
             kind = 'String'
-            args = [deref(p.env, deref(p.env, z)) for z in r[2]]
+            r_ = r if r[0] == 'call' else r[2]
+            args = [deref(p.env, deref(p.env, z)) for z in r_[2]]
             ok = all(z[0] == 'call' and z[1].startswith('object::Object::as_str') for z in args) and len(args) == 2 \
                 and {1, 2} == {i for i in (1, 2) for z in args if is_param(deref(p.env, z[2][0]), i)} and poss[1] == poss[2] == {'String'}
             why = 'string payloads compared where the tags may be %s / %s' % (sorted(poss[1]), sorted(poss[2]))
@@ -162,10 +180,10 @@ def check_object_eq(F, rep, rule, heap_types):
                 rep.good(rule, name, 'arm Array (unspecified)', 'returns %s' % show(r)[:80], fn.loc(), nontrivial=False)
                 continue
             if var in heap_types:
-                ok2 = ok and kind == var
+                ok2 = ok and kind in (var, 'delegates')
                 rep.ob(ok2, rule, name, 'arm ' + var, 'heap payloads are compared by content: ' + (show(r) if ok2 else why), fn.loc())
             else:
-                ok2 = ok and kind == 'word'
+                ok2 = ok and kind in ('word', 'delegates')
                 rep.ob(ok2, rule, name, 'arm ' + var, 'immediates are compared by word: ' + (show(r) if ok2 else why), fn.loc())
 
 
